@@ -51,3 +51,16 @@ def pco_alloc_failure(line, detail):
     bad = [k for k in model if k in impl and k not in ("first",) and model[k] != impl[k]]
     ploc = impl.get("ploc", "")
     return bad == ["panics"] and ("raw_vec" in ploc or "/pco" in ploc or "pco-" in ploc)
+
+
+def pesr_stage_in_front(line, detail):
+    """C05, kept partial encoder (`c05 pesr`): the chain has an array-to-array or bytes-to-bytes stage in front of a sharding
+    codec (first level `a2as`/`b2bs` not both `-`), so the default partial encoder of that stage reads through a partial
+    decoder created with the handle; and nothing panicked"""
+    if not line.startswith("c05 pesr "):
+        return False
+    f = _fields(line.split(" -> ", 1)[0])
+    if f.get("ishs", "~") == "~":
+        return False
+    front = not (f.get("a2as", "-").split(";")[0] == "-" and f.get("b2bs", "-").split(";")[0] == "-")
+    return front and "panic" not in line.split(" -> ", 1)[-1]
